@@ -13,7 +13,10 @@
 //!   seq          in = [calls]                     single-threaded API script
 //!   stress       in = [label, threads, per_thread, v, init]  free-running threads, no hook
 //!   transparent  in = [pipe, mode, data, parts, regs, errmodes, poison, cfg]
-//!   export       in = [metrics, stamps, via_all]     to_json / save_to_file / snapshot keys
+//!   export       in = [metrics, stamps, via_all]     to_json / save_to_file / snapshot keys, and
+//!                the duration of the stamped run (stamps = k >= 1: k-1 ms asleep between
+//!                record_start and record_end) as elapsed() / to_json / the saved file report it
+//!   (transparent, pipe 5: the closure sleeps data[i] ms per element; the same three views)
 //!
 //! Metric names are integers: k >= 0 is the string "c<k>", -1 is "execution_time_ms".
 //! A metric is [name, kind, val]: kind 0 = CounterMetric(val), kind 1 = some other metric
@@ -230,6 +233,7 @@ enum Defect {
     SetAdds,      // set_counter adds instead of overwriting
     FirstWins,    // register keeps an existing metric
     SkipNull,     // to_json leaves out metrics whose value() is JSON null (NaN / inf gauges)
+    SubsecMillis, // to_json exports subsec_millis() (the duration modulo one second)
 }
 struct MutInner {
     metrics: HashMap<String, Box<dyn Metric>>,
@@ -341,7 +345,9 @@ impl Coll for Mutant {
             o.insert(n.clone(), json!({"value": m.value()}));
         }
         if let (Some(s), Some(e)) = (inner.start_time, inner.end_time) {
-            o.insert("execution_time_ms".into(), json!({"value": e.duration_since(s).as_millis() as u64}));
+            let d = e.duration_since(s);
+            let ms = if self.defect == Defect::SubsecMillis { u64::from(d.subsec_millis()) } else { d.as_millis() as u64 };
+            o.insert("execution_time_ms".into(), json!({"value": ms}));
         }
         Value::Object(o)
     }
@@ -360,6 +366,7 @@ fn new_collector() -> Arc<dyn Coll> {
         Some("set_adds") => Arc::new(Mutant::new(Defect::SetAdds)),
         Some("first_wins") => Arc::new(Mutant::new(Defect::FirstWins)),
         Some("skip_null") => Arc::new(Mutant::new(Defect::SkipNull)),
+        Some("subsec_millis") => Arc::new(Mutant::new(Defect::SubsecMillis)),
         Some(other) => panic!("unknown C16_MUTANT {other}"),
     }
 }
@@ -829,6 +836,17 @@ fn run_pipeline(
                 outs.push(collect_with(p, &c, mode, parts, e, rc, &|(k, s): (i64, i64)| vec![k, s], true));
             }
         }
+        // every element x makes the closure sleep x ms (clamped to 0..=3000): a run that provably
+        // lasts at least that long
+        5 => {
+            let c = src.map(|x: &i64| {
+                std::thread::sleep(Duration::from_millis((*x).clamp(0, 3000) as u64));
+                x + 1
+            });
+            for &e in errmodes {
+                outs.push(collect_with(p, &c, mode, parts, e, rc, &|x: i64| vec![x], false));
+            }
+        }
         3 => {
             let c = src.combine_globally(Sum::<i64>::default(), Some(2));
             for &e in errmodes {
@@ -863,8 +881,23 @@ const SCRATCH: &str = "/verif/run/C16/scratch";
 
 // ------------------------------------------------------------------ JSON export of every metric kind
 
+/// the "value" of the execution_time_ms entry of an export, -1 when it is missing / not a u64
+fn time_entry(j: &Value) -> i64 {
+    j.get("execution_time_ms")
+        .and_then(|e| e.get("value"))
+        .and_then(Value::as_u64)
+        .and_then(|u| i64::try_from(u).ok())
+        .unwrap_or(-1)
+}
+fn ns(d: Duration) -> i64 {
+    i64::try_from(d.as_nanos()).unwrap()
+}
+
 /// in = [metrics, stamps, via_all]: register the metrics (one register_all, or register one by
-/// one), optionally record start and end, then export three ways
+/// one), optionally record start and end (stamps = 0: no stamps; k >= 1: record_start, sleep
+/// k-1 ms, record_end), then export three ways.  The last output component relates the views of
+/// the run's duration: [lo, hi, elapsed() in ns, to_json's execution_time_ms, the file's], where
+/// lo..hi brackets (end - start) by the harness's own clock readings around the two calls.
 fn run_export(input: &Value) -> Value {
     set_yield_hook(None);
     let c = new_collector();
@@ -875,10 +908,21 @@ fn run_export(input: &Value) -> Value {
             c.reg(m);
         }
     }
-    if input[1].as_i64().unwrap() != 0 {
+    let stamps = input[1].as_i64().unwrap();
+    let mut bracket = (0i64, 0i64);
+    if stamps != 0 {
+        let t0 = Instant::now();
         c.start();
+        let t1 = Instant::now();
+        if stamps > 1 {
+            std::thread::sleep(Duration::from_millis(stamps as u64 - 1));
+        }
+        let t2 = Instant::now();
         c.end();
+        let t3 = Instant::now();
+        bracket = (ns(t2.duration_since(t1)), ns(t3.duration_since(t0)));
     }
+    let elapsed = c.elapsed();
     let snap = c.snap();
     let mut snap_keys: Vec<i64> = snap.keys().map(|k| name_int(k)).collect();
     snap_keys.sort_unstable();
@@ -890,16 +934,25 @@ fn run_export(input: &Value) -> Value {
     std::fs::create_dir_all(SCRATCH).unwrap();
     let dir = tempfile::Builder::new().prefix("export-").tempdir_in(SCRATCH).unwrap();
     let path = dir.path().join("metrics.json");
+    let mut file_ms = -1i64;
     let file_keys = if c.save(path.to_str().unwrap()) {
         match std::fs::read_to_string(&path).ok().and_then(|t| serde_json::from_str::<Value>(&t).ok()) {
-            Some(v) => canon_keys(&v),
+            Some(v) => {
+                file_ms = time_entry(&v);
+                canon_keys(&v)
+            }
             None => json!("unreadable"),
         }
     } else {
         json!("not-saved")
     };
     let counters: Vec<Value> = counters.into_iter().map(|(k, u)| json!([k, u])).collect();
-    json!(["ok", snap_keys, canon_keys(&j), shaped, file_keys, counters])
+    let time = if stamps != 0 {
+        json!([bracket.0, bracket.1, elapsed.map(ns), time_entry(&j), file_ms])
+    } else {
+        json!([0, 0, elapsed.map(ns), null, null])
+    };
+    json!(["ok", snap_keys, canon_keys(&j), shaped, file_keys, counters, time])
 }
 
 fn run_transparent(input: &Value) -> Value {
@@ -933,15 +986,25 @@ fn run_transparent(input: &Value) -> Value {
     }
     let p1 = Pipeline::default();
     p1.set_metrics(mc.clone());
+    let t_before = Instant::now();
     let with = run_pipeline(&p1, pipe, mode, &data, parts, &errmodes, &rc1);
+    let window = ns(t_before.elapsed());
     let rest = catch_unwind(AssertUnwindSafe(|| {
         let el = mc.elapsed();
         let got = p1.get_metrics().is_some();
         let taken = p1.take_metrics();
-        let keys = taken.as_ref().map_or(Value::Null, |m| canon_keys(&m.to_json()));
+        let j = taken.as_ref().map(|m| m.to_json());
+        let keys = j.as_ref().map_or(Value::Null, canon_keys);
         let gone = p1.get_metrics().is_none();
         let positive = el.is_some_and(|d| d > Duration::ZERO);
-        json!(["ok", el.is_some(), keys, got, taken.is_some(), gone, positive])
+        // the views of the duration: [all runs took place within `window` ns, elapsed() in ns,
+        // the execution_time_ms entry of to_json]
+        let json_ms = match (&el, &j) {
+            (Some(_), Some(j)) => json!(time_entry(j)),
+            _ => Value::Null,
+        };
+        let time = json!([window, el.map(ns), json_ms]);
+        json!(["ok", el.is_some(), keys, got, taken.is_some(), gone, positive, time])
     }))
     .unwrap_or_else(|_| json!(["panic"]));
     json!(["ok", with, without, rest])
@@ -1280,6 +1343,32 @@ fn generate(seed: u64, tier: Tier, em: &mut Emitter) {
             }
         }
     }
+    // runs of a known minimal duration (the closure sleeps): sub-second and beyond one second,
+    // so that the exported milliseconds cannot be the duration modulo one second
+    let mut sleepy: Vec<(i64, Vec<i64>, i64, Vec<i64>, i64)> = vec![
+        (0, vec![300], 1, vec![0], 0),
+        (1, vec![400, 400], 2, vec![0], 0),
+        (0, vec![1100], 1, vec![0], 2),
+    ];
+    if thorough {
+        sleepy.extend([
+            (0, vec![1100], 1, vec![0], 0),
+            (0, vec![600, 600], 1, vec![0], 3),
+            (1, vec![1100], 2, vec![0], 3),
+            (0, vec![1100], 1, vec![0, 0], 0),
+            (0, vec![1050], 1, vec![0], 9),
+            (1, vec![2050, 10], 2, vec![0], 9),
+            (0, vec![999], 1, vec![2, 0], 5),
+        ]);
+    }
+    for (mode, data, parts, errs, cfg) in sleepy {
+        em.case(
+            "transparent",
+            json!([5, mode, data, parts, [[0, 0, 1], [-1, 0, 9]], errs, 0, cfg]),
+            true,
+            &["pipeline", "timed"],
+        );
+    }
     let n_tr = if thorough { 400 } else { 40 };
     for _ in 0..n_tr {
         let data: Vec<i64> = (0..rng.range(0, 30)).map(|_| rng.range(-20, 20)).collect();
@@ -1307,6 +1396,15 @@ fn generate(seed: u64, tier: Tier, em: &mut Emitter) {
                 em.case("export", json!([[[name, k, v]], stamps, (k + v + name) & 1]), true, &["export", "single"]);
             }
         }
+    }
+    // the three views of one run's duration, below and beyond one second
+    let mut timed: Vec<i64> = vec![2, 6, 251, 1001, 1101];
+    if thorough {
+        timed.extend([501, 1000, 1206, 2051, 3001]);
+    }
+    for (i, &st) in timed.iter().enumerate() {
+        let ms = if i % 2 == 0 { json!([[0, 0, 5]]) } else { json!([[-1, 0, 77], [1, 2, 0]]) };
+        em.case("export", json!([ms, st, i % 2]), true, &["export", "timed"]);
     }
     em.case("export", json!([[], 0, 0]), false, &["export", "single"]);
     em.case("export", json!([[], 1, 1]), false, &["export", "single"]);
